@@ -76,7 +76,10 @@ func UnmarshalPayload(b []byte) (Payload, error) {
 		b = b[n:]
 
 		switch {
-		case num == 1 && typ == protowire.BytesType:
+		case num == 1:
+			if typ != protowire.BytesType {
+				return p, errInvalidHandshakeMessage
+			}
 			details, n := protowire.ConsumeBytes(b)
 			if n < 0 {
 				return p, errInvalidHandshakeMessage
